@@ -35,7 +35,7 @@ CHECKS = {
             'R6a the result of every lossy Decimal operation reaches only string formatting (reviewed barriers with frozen caller sets for the '
             'effective-cent snap and spreadsheet floats); R6b the --print-full-values flag is only ever passed on to PrintHelper, whose field is '
             'read only by curr_str; R6c gains are bucketed by Date::year() of Tx.settlement_date (no other calendar accessor) and total/yearly sums add the same value. ' + PARTIAL % 'C06'),
-    'C07': ('other', 'field-read set and edge-condition rule on Tx ordering; must-precede (dominator) sort-before-split; loop-carried definition of the read index; header normalisation provenance; index-stability taint',
+    'C07': ('other', 'evaluation of Ord::cmp / partial_cmp of Tx to its lexicographic chain of compared keys (through match, then/then_with, helpers); must-precede (dominator) sort-before-split; loop-carried definition of the read index; header normalisation provenance; index-stability taint',
             'R7a Tx order = (settlement_date, read_index) with read_index only on Equal; R7b sort dominates split_txs_by_security with no mutation in between '
             'and an order-preserving split; R7c the read index is carried across files and incremented per record; R7d header cells are lower-cased and '
             'trimmed before lookup and column indices are positions in the unfiltered row; R7e nothing re-orders or drops the file list between the arguments and the readers. ' + PARTIAL % 'C07'),
